@@ -106,6 +106,8 @@ type Cfg struct {
 	MaxDelay int
 	Metrics  bool
 	NoGateOnReads bool
+	// MergeBatches: the proxy re-batches aggregated watch events (a batch may absorb the batches that follow it)
+	MergeBatches bool
 }
 
 // World is one runtime under observation.
@@ -146,6 +148,7 @@ func (w *World) Wakes() []*Wake { w.mu.Lock(); defer w.mu.Unlock(); return slice
 func NewWorld(rng *rand.Rand, cfg Cfg) (*World, error) {
 	inner := namespaced.NewState(func(ns resource.Namespace) state.CoreState { return inmem.NewState(ns) })
 	px := gp.New(inner, rand.New(rand.NewPCG(rng.Uint64(), 7)), cfg.MaxDelay)
+	px.MergeBatches = cfg.MergeBatches
 
 	w := &World{Cfg: cfg, Px: px, St: state.WrapCore(px), Start: time.Now(), runDone: make(chan struct{}), RegErrs: map[string]error{}, StartSeq: map[string]int{}, probes: map[string]*Probe{}, qprobes: map[string]*QProbe{}}
 
